@@ -80,6 +80,16 @@ class NpC10Models:
     def binop(self, ex, op, a, b, lineno, inplace=False):
         if op == "MatMult" and _is_arr(ex, a) and _is_arr(ex, b):
             return self._matvec(ex, a, b, lineno)
+        if getattr(ex.contract, "dunder_binop", False) and isinstance(a, Ref) and op in ("Add", "Sub", "Mult", "Div"):
+            # `obj <op> x` on an instance of a repository class: its __add__ / __sub__ / __mul__ / __truediv__
+            from . import source as S
+            from .values import PyObj
+
+            o = ex.st.heap.get(a.id)
+            if isinstance(o, PyObj):
+                m = S.find_method(o.cls, {"Add": "__add__", "Sub": "__sub__", "Mult": "__mul__", "Div": "__truediv__"}[op])
+                if m is not None:
+                    return ex.call_repo(m, [a, b], {}, lineno)
         if not (inplace and _is_arr(ex, a)):
             return NotImplemented
         # numpy: `a op= b` writes the result into a's buffer (the name keeps denoting the same array)
@@ -163,6 +173,11 @@ class NpC10Models:
 
         if isinstance(v, FunV) and _precise(ex) and all(isinstance(c, ClassV) for c in (cls if isinstance(cls, tuple) else (cls,))):
             return False  # a user callable is not an instance of a gemseo class (NotImplementedCallable...)
+        if _precise(ex) and getattr(ex.contract, "numbers_abc", False) and not isinstance(v, bool) and ex.num(v) is not None and not (isinstance(v, SV) and v.ty == TBool):
+            # isinstance(x, (Number, ndarray)) for a Python number: numbers.Number is an abstract base class of int and float
+            names = [c.name if isinstance(c, BuiltinV) else getattr(c, "qualname", "?") for c in (cls if isinstance(cls, tuple) else (cls,))]
+            if any(n.rsplit(".", 1)[-1] == "Number" for n in names):
+                return True
         return NotImplemented
 
     def compare_any(self, ex, op, a, b, lineno):
